@@ -261,3 +261,28 @@ def run(cx):
         do = Origins(db)
         ob.require(len(c) == 1 and is_param(arg_origin(c[0], 1, do), "address") and is_param(arg_origin(c[0], 2, do), "peer_id") and is_param(arg_origin(c[0], 3, do), "oneshot"),
                    "dial_peer/forwarded", "dial_peer does not forward (address, peer_id, oneshot) to dial_peer_task", db.path)
+
+    with cx.ob("C03.7", "R-FLOW", "every dial that knows the identity it expects is pinned: background dials pass Some(known peer's id), explicit dials forward the caller's Option") as ob:
+        sites = prog.callers_of(f"{MGR}::dial_peer")
+        ob.floor(sites, 2, "dial_peer call sites (explicit + background)", exact=True)
+        for c in sites:
+            o = Origins(c.body)
+            own = owner_path(prog, c.body)
+            t = strip_identity(o.of_operand(c.args[2]))
+            if own == f"{MGR}::handle_connect_request":
+                ob.require(is_param(t, "peer_id"), "pin/explicit-forwards", f"explicit dial passes {show(t)[:60]} as expected identity", c.body.path, c.body.loc(c.bb))
+            elif own == f"{MGR}::handle_connectivity_check":
+                ok = t[0] == "agg" and t[2].endswith("Option::Some") and mentions_field(t[3][0], "peer_id") and term_has_call(t[3][0], "Iterator::next")
+                ob.require(ok, "pin/background-pinned", f"background dial passes {show(t)[:80]} as expected identity (must be Some(known peer id))", c.body.path, c.body.loc(c.bb))
+            else:
+                ob.fail("refuted", f"pin/unknown-dial-site/{own}", f"dial_peer called from {c.body.path}", c.body.path, c.body.loc(c.bb))
+        # the address dialed belongs to that same known-peer entry
+        hc = cx.body(f"{MGR}::handle_connectivity_check")
+        ho = Origins(hc)
+        dp = hc.calls_to(f"{MGR}::dial_peer")
+        if dp:
+            addr = ho.of_operand(dp[0].args[1])
+            pid = ho.of_operand(dp[0].args[2])
+            a_it = [x[3] for x in walk(addr) if x[0] == "call" and name_matches(x[1], "Iterator::next")]
+            p_it = [x[3] for x in walk(pid) if x[0] == "call" and name_matches(x[1], "Iterator::next")]
+            ob.require(bool(a_it) and set(a_it) == set(p_it) and mentions_field(addr, "address"), "pin/address-of-same-peer", "dialed address and pinned id do not come from the same known-peer entry", hc.path)
